@@ -62,3 +62,10 @@ add_entity(json_t *root, json_t *obj, const char *plural, ...);
 
 bool
 copy_val(const json_t *from, json_t *into, ...);
+
+/* Is the named parameter set in the protected or shared unprotected header
+ * (or can that header not be determined)? Those headers take precedence over
+ * the per-recipient one, where a key wrapping algorithm records the
+ * parameters it generates. */
+bool
+shared_hdr_has(const json_t *jwe, const char *name);
